@@ -49,19 +49,22 @@ def cpath(rp):
 
 
 # ---------------------------------------------------------------------------------------------- the open finding
-def preserved_newline(t, inside=False):
-    """some text under an element bearing xml:space="preserve" contains a newline"""
+def verbatim_newline(t, inside=False):
+    """a newline in content that is written verbatim: text under xml:space="preserve", comment, PI, attribute value
+    (the Python twin of Wrap.verbatim_newline)"""
     if t[0] == "text":
         return inside and "\n" in t[1]
-    if t[0] != "tag":
-        return False
+    if t[0] == "comment":
+        return "\n" in t[1]
+    if t[0] == "pi":
+        return "\n" in t[2]
     here = inside or (pp.XML_NS, "space", "preserve") in [tuple(a) for a in t[3]]
-    return any(preserved_newline(c, here) for c in t[4])
+    return any("\n" in a[2] for a in t[3]) or any(verbatim_newline(c, here) for c in t[4])
 
 
 def classify(finding, case):
-    if finding["cls"] == "preserved-content-with-newline":
-        return case.get("width", 0) > 0 and preserved_newline(pp.tuple_tree(case["doc"]))
+    if finding["cls"] == "verbatim-content-with-newline":
+        return case.get("width", 0) > 0 and verbatim_newline(pp.tuple_tree(case["doc"]))
     return False
 
 
@@ -71,11 +74,16 @@ def roundtrip(out):
 
 
 def replay_open(f):
-    w = f["witness"]
-    doc = pp.load_reduced(w["xml"])
-    out = pp.real_serialize(doc.root, w["indentation"], w["width"], w["align"])
-    with no_gc():
-        return roundtrip(out) != extract(doc.root)
+    still = False
+    for key in ("witness", "witness_2"):
+        w = f.get(key)
+        if not w:
+            continue
+        doc = pp.load_reduced(w["xml"])
+        out = pp.real_serialize(doc.root, w["indentation"], w["width"], w["align"])
+        with no_gc():
+            still = still or roundtrip(out) != extract(doc.root)
+    return still
 
 
 # ---------------------------------------------------------------------------------------------- cases
@@ -111,7 +119,18 @@ def gen_coincidence(rng):
     ind, depth, n = rng.choice([("  ", 2, 1), ("  ", 3, 3), (" ", 4, 1), ("\t", 4, 1), (" \t", 2, 1), (" \t", 3, 3),
                                 ("  ", 2, 2), (" ", 3, 1)])
     name = "bcd"[:n] if n <= 3 else "b" * n
-    inner = ("tag", "", name, [pp.space_attr("preserve")],
+    if rng.random() < 0.3:
+        # a comment / PI whose last line is as long as the indentation of the depth (minus the closing delimiter)
+        k = depth * len(ind)
+        if rng.random() < 0.7 and k >= 3:
+            inner_alt = ("comment", "x\n" + "y" * (k - 3))
+        elif k >= 2:
+            inner_alt = ("pi", "t", "x\n" + "y" * (k - 2))
+        else:
+            inner_alt = ("comment", "x\ny")
+    else:
+        inner_alt = None
+    inner = inner_alt or ("tag", "", name, [pp.space_attr("preserve")],
              [("text", rng.choice(["x\n", "\n", "x\ny\n", " x \n", "x\n\n", "x\n", "x y", "x\n "]))])
     follow = rng.choice([[("text", "bb")], [("text", "bb")], [("text", " bb cc")], [("text", "bb cc dd ee")],
                          [("text", "bb "), ("tag", "", "i", [], [])], [("text", "unbreakablewordoftwentysix")],
